@@ -328,3 +328,135 @@ Check C03_source_tables :
   agrees src_ErrorCode_MethodNotFound Route.EC_NOTFOUND /\ agrees src_ErrorCode_ResourceExhausted Route.EC_EXHAUSTED /\
   agrees src_ErrorCode_InternalError Route.EC_INTERNAL.
 Print Assumptions C03_source_tables.
+
+(** ** tie to the source text: the bodies of route, dispatch_view, dispatch and
+    route_request_view of src/server_request.rs, re-translated into Gallina by
+    bin/rs2v on every run (Gen/RouteGen.v) in its effect / oracle mode, are the
+    model's functions: the decision chain (version, query format, UTF-8, lookup)
+    with the error code of each rejection and the notify flag; "a notify gets no
+    response, whatever else it is"; the handler is called exactly once iff the
+    request is dispatched ([e_calls]); a handler's error becomes the error
+    response with its code and text; QueryFormat::try_from (src/constants.rs, also
+    re-translated) yields the variant with that discriminant.  Oracles: [utf8] for std::str::from_utf8
+    (any predicate that says of this request's query what the request's oracle
+    input [o_utf8] says), [call_handler] (= ONE step of the model's
+    [run_handler]) for handler.handle_view / handle_with_ctx.  NOT tied: the
+    *texts* of the rejection responses ([format!] and string literals are
+    [TOpaque]); the second theorem instantiates them with the model's texts.  A
+    function that could not be translated is [None] and its clause is [True]
+    (reported by rs2v); a function whose meaning changed breaks the proof. *)
+From RepeV Require Import Base.GenRoutePrelude Gen.RouteGen Proofs.RouteGenAgree Proofs.RouteTables.
+
+Theorem C03_source_translation :
+  match gen_qf_try_from with
+  | Some f => forall x, f x = match qf_try_from x with Some q => ROk q | None => RErr x end
+  | None => True
+  end /\
+  match gen_route with
+  | Some f => forall utf8 rt r, utf8 (q_query r) = o_utf8 r -> f utf8 rt r (q_query r) = route_spec rt r
+  | None => True
+  end /\
+  agrees4 gen_dispatch_view (dispatch_spec View) /\
+  agrees4 gen_dispatch (dispatch_spec Owned) /\
+  match gen_route_request_view with
+  | Some f => forall utf8 rt r e, utf8 (q_query r) = o_utf8 r -> f utf8 rt r e = route_request_view_spec rt r e
+  | None => True
+  end.
+Proof. exact c03_source_translation. Qed.
+
+(** what the right-hand sides above are, in terms of the steps the theorems of
+    this file are about: the inline paths are [route_request_view] followed by the
+    writer's [finish]; the off-reader arm is [dispatch] with the caller's stamp and
+    panic guard; the handler is called once iff the request is dispatched *)
+Theorem C03_source_translation_steps :
+  (forall finish rt r,
+     let '(d, e) := route_request_view_spec rt r eff0 in
+     inline_step finish rt r =
+       mkStep (match d with
+               | DRet o => option_map (fun g => finish r (resp_of (reject_text rt r) g)) o
+               | DUnwind => None
+               end) (e_inv e) (e_mw e)
+     /\ e_calls e = match Route.route rt r with RDispatch _ _ => 1%nat | RReject _ _ => O end) /\
+  (forall rt mount h r, o_sat r = false ->
+     let '(d, e) := dispatch_spec Owned (rt, (mount, h)) r (is_notify r) eff0 in
+     offreader_dispatch rt mount h r =
+       mkStep (match d with
+               | DRet o => option_map (fun g => finish_stamp r (resp_of [] g)) o
+               | DUnwind => if is_notify r then None
+                            else Some (finish_stamp r (err_like r EC_INTERNAL msg_panicked))
+               end) (e_inv e) (e_mw e)
+     /\ e_calls e = 1%nat) /\
+  agrees src_QueryFormat_RawBinary QF_RAW_BINARY /\ agrees src_QueryFormat_JsonPointer QF_JSON_POINTER.
+Proof.
+  exact (conj inline_step_is_route_request_view (conj offreader_dispatch_is_dispatch c03_query_formats_agree)).
+Qed.
+
+Check C03_source_translation :
+  match gen_qf_try_from with
+  | Some f => forall x, f x = match qf_try_from x with Some q => ROk q | None => RErr x end
+  | None => True
+  end /\
+  match gen_route with
+  | Some f => forall utf8 rt r, utf8 (q_query r) = o_utf8 r -> f utf8 rt r (q_query r) = route_spec rt r
+  | None => True
+  end /\
+  agrees4 gen_dispatch_view (dispatch_spec View) /\
+  agrees4 gen_dispatch (dispatch_spec Owned) /\
+  match gen_route_request_view with
+  | Some f => forall utf8 rt r e, utf8 (q_query r) = o_utf8 r -> f utf8 rt r e = route_request_view_spec rt r e
+  | None => True
+  end.
+Check C03_source_translation_steps :
+  (forall finish rt r,
+     let '(d, e) := route_request_view_spec rt r eff0 in
+     inline_step finish rt r =
+       mkStep (match d with
+               | DRet o => option_map (fun g => finish r (resp_of (reject_text rt r) g)) o
+               | DUnwind => None
+               end) (e_inv e) (e_mw e)
+     /\ e_calls e = match Route.route rt r with RDispatch _ _ => 1%nat | RReject _ _ => O end) /\
+  (forall rt mount h r, o_sat r = false ->
+     let '(d, e) := dispatch_spec Owned (rt, (mount, h)) r (is_notify r) eff0 in
+     offreader_dispatch rt mount h r =
+       mkStep (match d with
+               | DRet o => option_map (fun g => finish_stamp r (resp_of [] g)) o
+               | DUnwind => if is_notify r then None
+                            else Some (finish_stamp r (err_like r EC_INTERNAL msg_panicked))
+               end) (e_inv e) (e_mw e)
+     /\ e_calls e = 1%nat) /\
+  agrees src_QueryFormat_RawBinary QF_RAW_BINARY /\ agrees src_QueryFormat_JsonPointer QF_JSON_POINTER.
+
+(** the specifications are the plain ones *)
+Check (eq_refl : route_spec = fun rt r =>
+  match Route.route rt r with
+  | RReject c _ => ROReject (is_notify r) c TOpaque
+  | RDispatch m h => RODispatch (rt, (m, h)) (is_notify r) (q_query r)
+  end).
+Check (eq_refl : dispatch_spec = fun m bh r notify e =>
+  let '(c, e') := call_handler m bh r e in
+  match c with
+  | HPanicked => (DUnwind, e')
+  | HReturned v =>
+      (DRet (if notify then None
+             else Some (match v with
+                        | ROk p => p
+                        | RErr x => GError m r (re_code x) (TText (re_text x))
+                        end)), e')
+  end).
+Check (eq_refl : route_request_view_spec = fun rt r e =>
+  match Route.route rt r with
+  | RReject c _ => (DRet (if is_notify r then None else Some (GError View r c TOpaque)), e)
+  | RDispatch m h => dispatch_spec View (rt, (m, h)) r (is_notify r) e
+  end).
+Check (eq_refl : resp_of = fun txt g =>
+  match g with
+  | GHandler p => p
+  | GError m r c t => err_resp m r c (match t with TOpaque => txt | TText s => s end)
+  end).
+Check (eq_refl : qf_try_from = fun x =>
+  if x =? QF_RAW_BINARY then Some QFRawBinary else if x =? QF_JSON_POINTER then Some QFJsonPointer else None).
+Check (eq_refl : reject_text = fun rt r =>
+  match Route.route rt r with RReject _ msg => msg | RDispatch _ _ => [] end).
+
+Print Assumptions C03_source_translation.
+Print Assumptions C03_source_translation_steps.
